@@ -20,6 +20,8 @@ func (harness) Configs(tier string) []xplore.Config {
 	switch *prop {
 	case "C04":
 		return configs04(tier)
+	case "C01":
+		return configs01(tier)
 	case "C05":
 		return xplore.WithReverse(configs05(tier))
 	case "C07":
@@ -36,7 +38,7 @@ func (harness) Configs(tier string) []xplore.Config {
 
 func (harness) Run(cfg xplore.Config, ch vrt.Chooser, trace bool) (xplore.Outcome, *vrt.Result) {
 	switch *prop {
-	case "C04":
+	case "C04", "C01":
 		return run04(cfg, ch, trace)
 	case "C05":
 		return run05(cfg, ch, trace)
